@@ -103,6 +103,7 @@ def run_marked_batch(exe, cases, ctx, label, on_crash, timeout, parser, binary_o
     results = {}
     start = 0
     guard = 0
+    nhang = 0
     while start < len(cases):
         guard += 1
         cf, of, mf = (os.path.join(sc, x) for x in ('cases', 'out', 'marker'))
@@ -137,7 +138,7 @@ def run_marked_batch(exe, cases, ctx, label, on_crash, timeout, parser, binary_o
         except Exception:
             raise core.HarnessFailure('%s died without marker rc=%s err=%s' % (os.path.basename(exe), rc, err[-400:]))
         case = cases[cur]
-        if rc == -999:
+        if rc == -999 or (rc == 3 and 'WATCHDOG' in err):
             cls, key = 'hang', 'hang'
         else:
             cls, key, is_lhasa = classify_crash(err, rc)
@@ -147,6 +148,12 @@ def run_marked_batch(exe, cases, ctx, label, on_crash, timeout, parser, binary_o
             on_crash(case, cls, key, err)
         results.pop(cur, None)
         start = cur + 1
+        if cls == 'hang':
+            nhang += 1
+            if nhang >= 4:
+                # enough evidence of non-termination in this batch; do not burn hours on the rest
+                ctx.count('cases_not_run_after_repeated_hangs', len(cases) - start)
+                break
         if guard > 2000:
             raise core.HarnessFailure('too many crashes in one batch')
     shutil.rmtree(sc, ignore_errors=True)
